@@ -16,7 +16,7 @@ case "${1:-}" in
     mkdir -p "$VERIF/bin" "$VERIF/evidence" "$VERIF/violations"
     build
     (cd "$VERIF/obsa" && go vet ./... ) || exit 2
-    if [ -d "$VERIF/obsa/fixtures" ]; then "$VERIF/bin/obsa" selftest fixtures || exit 2; fi
+    if [ -d "$VERIF/obsa/eng/testdata" ]; then (cd "$VERIF/obsa" && go test ./eng/ ) || exit 2; fi
     echo "setup ok"
     ;;
   check)
